@@ -44,25 +44,42 @@ fn oracle(out: &mut Out, bytes: &[u8], op: &str) -> String {
     ans
 }
 
+pub type Oracle = fn(&mut Out, &[u8], &str) -> String;
+
 pub fn dec(out: &mut Out, bytes: &[u8]) {
+    dec_with(out, bytes, oracle)
+}
+
+/// one `dec` case judged by the given implementation-vs-oracle pass (C01's own, or C07's / C08's)
+pub fn dec_with(out: &mut Out, bytes: &[u8], oracle: Oracle) {
     let op = format!("dec {}", hex(bytes));
     let ans = oracle(out, bytes, &op);
     out.case(&op, &ans);
 }
 
 pub fn one(out: &mut Out, line: &str) {
+    one_with(out, line, oracle)
+}
+
+pub fn one_with(out: &mut Out, line: &str, oracle: Oracle) {
     let p: Vec<&str> = line.split_whitespace().collect();
     match p.as_slice() {
         ["dec", h] => match unhex(h) {
-            Some(b) => dec(out, &b),
+            Some(b) => dec_with(out, &b, oracle),
             None => out.notes.push(format!("bad hex: {line}")),
         },
-        ["dec"] => dec(out, &[]),
+        ["dec"] => dec_with(out, &[], oracle),
         _ => out.notes.push(format!("bad replay line: {line}")),
     }
 }
 
 pub fn run(out: &mut Out, rng: &mut Rng, thorough: bool) {
+    run_with(out, rng, thorough, oracle)
+}
+
+/// the shape-exhaustive frame generator shared by C01, C07 and C08
+pub fn run_with(out: &mut Out, rng: &mut Rng, thorough: bool, oracle: Oracle) {
+    let dec = |out: &mut Out, b: &[u8]| dec_with(out, b, oracle);
     let k = if thorough { 40 } else { 1 };
     // every DF x every length 0..=32 (wrong lengths must be rejected, never crash)
     for df in 0..32u8 {
